@@ -1,7 +1,7 @@
 use crate::runtime::error::state_error;
 use crate::runtime::list::{access_with_integer, access_with_symbol};
 use crate::runtime::utilities::*;
-use garnish_lang_traits::{Extents, GarnishData, GarnishDataType, GarnishNumber, Instruction, RuntimeError, SymbolListPart, TypeConstants};
+use garnish_lang_traits::{ErrorType, Extents, GarnishData, GarnishDataType, GarnishNumber, Instruction, RuntimeError, SymbolListPart, TypeConstants};
 use log::trace;
 
 pub fn apply<Data: GarnishData>(this: &mut Data) -> Result<Option<Data::Size>, RuntimeError<Data::Error>> {
@@ -139,26 +139,23 @@ fn apply_internal<Data: GarnishData>(this: &mut Data, instruction: Instruction, 
             let mut iter = this.get_symbol_list_iter(right_addr.clone(), Extents::new(Data::Number::zero(), Data::Number::max_value()))?;
             let mut current = left_addr.clone();
             while let Some(part) = iter.next() {
-                match part {
-                    SymbolListPart::Symbol(sym) => {
-                        match access_with_symbol(this, sym, current)? {
-                            None => {
-                                current = this.add_unit()?;
-                                break;
-                            }
-                            Some(i) => current = i,
-                        }
-                    },
-                    SymbolListPart::Number(num) => {
-                        match access_with_integer(this, num, current)? {
-                            None => {
-                                current = this.add_unit()?;
-                                break;
-                            }
-                            Some(i) => current = i,
-                        }
-                    }
+                let next = match part {
+                    SymbolListPart::Symbol(sym) => access_with_symbol(this, sym, current.clone()),
+                    SymbolListPart::Number(num) => access_with_integer(this, num, current.clone()),
                 };
+                match next {
+                    // the path leads through a value that holds no items, like a missing key this ends the walk with unit
+                    Err(e) if e.get_type() == ErrorType::UnsupportedOpTypes => {
+                        current = this.add_unit()?;
+                        break;
+                    }
+                    Err(e) => Err(e)?,
+                    Ok(None) => {
+                        current = this.add_unit()?;
+                        break;
+                    }
+                    Ok(Some(i)) => current = i,
+                }
             }
 
             this.push_register(current)?;
